@@ -42,6 +42,7 @@ import Chrono.Proofs.StrftimeProvedL
 import Chrono.Proofs.RoundTripTotalL
 import Chrono.Spec.UnambiguousSpec
 import Chrono.Extracted.ParseTable
+import Chrono.Extracted.ParseFixedTable
 
 namespace Chrono.Props.C13
 open Chrono Chrono.M Chrono.M.Scan Chrono.M.ParseFrom Chrono.Spec Chrono.Proofs.RoundTrip Chrono.Extracted
@@ -105,6 +106,120 @@ theorem numeric_table_extracted :
     PARSE_NUMERIC_CALLS = [("&s[1..]", 1, "usize::MAX"), ("&s[1..]", 1, "usize::MAX"),
       ("s", 1, "width"), ("s", 1, "width")] := by
   decide
+
+/-! ### the `Item::Fixed` dispatch of `parse_internal` as extracted data (second review, G1)
+
+`PARSE_FIXED_TABLE` (tools/extractors/parsefixed.py) holds, for every variant pattern of the `match spec`
+in the `Item::Fixed` arm, the guard, the scanner called inside `try_consume!`, its arguments and the setter
+call, as written in src/format/parse.rs on this run.  `runFixedRow` reads such a row with the model
+functions of the SAME NAMES (`scan::short_month0` ↦ `short_month0`, the three flags of
+`scan::timezone_offset` ↦ `allow_zulu allow_missing_minutes allow_tz_minus_sign`, `len<N` ↦ the TOO_SHORT
+guard, `set_month(i64::from(month0)+1)` ↦ `Parsed.set_month p (m0 + 1)` …) and knows nothing about which
+variant the row belongs to. -/
+
+/-- the arms of the source `match spec`, in source order -/
+def fixedSrcOrder : List Fixed :=
+  [.shortMonthName, .longMonthName, .shortWeekdayName, .longWeekdayName, .lowerAmPm, .upperAmPm,
+   .nanosecond, .nanosecond3, .nanosecond6, .nanosecond9, .nanosecond3NoDot, .nanosecond6NoDot,
+   .nanosecond9NoDot, .timezoneName, .timezoneOffsetColon, .timezoneOffsetDoubleColon,
+   .timezoneOffsetTripleColon, .timezoneOffset, .timezoneOffsetColonZ, .timezoneOffsetZ,
+   .timezoneOffsetPermissive, .rfc2822, .rfc3339]
+
+/-- one iteration of the model's `parse_internal` for a `Fixed` item -/
+def fixedStep (p : Parsed) (s : List Nat) (f : Fixed) : PRes (Parsed × List Nat) :=
+  match f with
+  | .rfc2822 => Parse.parse_rfc2822 p s
+  | .rfc3339 => Parse.parse_rfc3339_relaxed p s
+  | f => Parse.parseFixedBase p s f
+
+/-- `try_consume!(scan(s))` followed by `parsed.set(v)?` for the name scanners -/
+def nameArm {α : Type} (r : Except ScanErr (List Nat × α)) (set : α → PRes Parsed) :
+    PRes (Parsed × List Nat) :=
+  match r with
+  | .ok (s', a) => (set a).map fun p' => (p', s')
+  | .error .tooShort => .error .tooShort
+  | .error .invalid => .error .invalid
+
+/-- the three literal flags of a `scan::timezone_offset` call -/
+def flags3 (args : String) : Option (Bool × Bool × Bool) :=
+  match args with
+  | "s.trim_start(),scan::colon_or_space,false,false,true" => some (false, false, true)
+  | "s.trim_start(),scan::colon_or_space,true,false,true" => some (true, false, true)
+  | "s.trim_start(),scan::colon_or_space,true,true,true" => some (true, true, true)
+  | "s.trim_start(),scan::colon_or_space,false,true,true" => some (false, true, true)
+  | "s.trim_start(),scan::colon_or_space,false,false,false" => some (false, false, false)
+  | "s.trim_start(),scan::colon_or_space,true,false,false" => some (true, false, false)
+  | "s.trim_start(),scan::colon_or_space,true,true,false" => some (true, true, false)
+  | "s.trim_start(),scan::colon_or_space,false,true,false" => some (false, true, false)
+  | _ => none
+
+/-- a row of the source table read with the model functions of the same names (`none`: no reading) -/
+def runFixedRow (r : String × String × String × String × String) (p : Parsed) (s : List Nat) :
+    Option (PRes (Parsed × List Nat)) :=
+  match r.2.1, r.2.2.1, r.2.2.2.1, r.2.2.2.2 with
+  | "", "scan::short_month0", "s", "set_month(i64::from(month0)+1)" =>
+    some (nameArm (short_month0 s) fun m0 => Parsed.set_month p ((m0 : Int) + 1))
+  | "", "scan::short_or_long_month0", "s", "set_month(i64::from(month0)+1)" =>
+    some (nameArm (short_or_long_month0 s) fun m0 => Parsed.set_month p ((m0 : Int) + 1))
+  | "", "scan::short_weekday", "s", "set_weekday(weekday)" =>
+    some (nameArm (short_weekday s) fun w => Parsed.set_weekday p w)
+  | "", "scan::short_or_long_weekday", "s", "set_weekday(weekday)" =>
+    some (nameArm (short_or_long_weekday s) fun w => Parsed.set_weekday p w)
+  | "len<2", "match",
+      "s.as_bytes()[0]|32,s.as_bytes()[1]|32:(b'a',b'm')=>false;(b'p',b'm')=>true;_=>returnErr(INVALID):s=&s[2..]",
+      "set_ampm(ampm)" =>
+    some (match s with
+      | a :: b :: rest =>
+        if or32 a = 97 ∧ or32 b = 109 then (Parsed.set_ampm p false).map fun p' => (p', rest)
+        else if or32 a = 112 ∧ or32 b = 109 then (Parsed.set_ampm p true).map fun p' => (p', rest)
+        else .error .invalid
+      | _ => .error .tooShort)
+  | "starts_with('.')", "scan::nanosecond", "&s[1..]", "set_nanosecond(nano)" =>
+    some (match s with
+      | 46 :: rest => Parse.setNano p (nanosecond rest)
+      | _ => .ok (p, s))
+  | "len<3", "scan::nanosecond_fixed", "s,3", "set_nanosecond(nano)" =>
+    some (if s.length < 3 then .error .tooShort else Parse.setNano p (nanosecond_fixed s 3))
+  | "len<6", "scan::nanosecond_fixed", "s,6", "set_nanosecond(nano)" =>
+    some (if s.length < 6 then .error .tooShort else Parse.setNano p (nanosecond_fixed s 6))
+  | "len<9", "scan::nanosecond_fixed", "s,9", "set_nanosecond(nano)" =>
+    some (if s.length < 9 then .error .tooShort else Parse.setNano p (nanosecond_fixed s 9))
+  | "", "Ok", "(s.trim_start_matches(|c:char|!c.is_whitespace()),())", "" => some (.ok (p, Parse.skipNonWs s))
+  | "", "scan::timezone_offset", args, "set_offset(i64::from(offset))" =>
+    (flags3 args).map fun fl =>
+      Parse.setOffset p (timezone_offset (trimStart s) .colonOrSpace fl.1 fl.2.1 fl.2.2)
+  | "", "parse_rfc2822", "parsed,s", "" => some (Parse.parse_rfc2822 p s)
+  | "", "parse_rfc3339_relaxed", "parsed,s", "" => some (Parse.parse_rfc3339_relaxed p s)
+  | _, _, _, _ => none
+
+/-- the model's `parse_internal` does `fixedStep` for a `Fixed` item -/
+theorem parse_internal_fixed (p : Parsed) (s : List Nat) (f : Fixed) (rest : List Item) :
+    Parse.parse_internal p s (.fixed f :: rest) =
+      match fixedStep p s f with
+      | .ok (p', s') => Parse.parse_internal p' s' rest
+      | .error e => .error e := by
+  cases f <;> rfl
+
+/-- **the `Item::Fixed` dispatch of the model is the table of `parse_internal` as extracted from
+src/format/parse.rs on this run**: the table has exactly one row per `Fixed` variant (its names are the
+variants' names in source order, and every variant occurs), and for every variant the model's step
+(`Parse.parseFixedBase`, or the RFC 2822 / RFC 3339 arm of `Parse.parse_internal`) is what the variant's
+row says, read by `runFixedRow` with the model's scanners, flags and setters of the same names — for every
+record and every text.  A swap `short_month0` ↔ `short_or_long_month0`, a flipped `allow_zulu` /
+`allow_missing_minutes` flag, a changed length guard or a different setter in the source changes the
+extracted row and makes this theorem fail. -/
+theorem fixed_table_extracted :
+    PARSE_FIXED_TABLE.map (·.1) = fixedSrcOrder.map Fixed.name ∧
+    (∀ f ∈ Fixed.all, f ∈ fixedSrcOrder) ∧
+    ∀ (f : Fixed) (p : Parsed) (s : List Nat),
+      (PARSE_FIXED_TABLE.find? (fun r => r.1 == f.name)).bind (fun r => runFixedRow r p s) =
+        some (fixedStep p s f) := by
+  refine ⟨by decide, by decide, ?_⟩
+  intro f p s
+  cases f <;> simp [PARSE_FIXED_TABLE, List.find?, Fixed.name, runFixedRow, flags3] <;>
+    first
+      | rfl
+      | (simp only [nameArm, fixedStep, Parse.parseFixedBase]; split <;> simp_all)
 
 /-! ## `item_inverts`: reading an item's rendering followed by `rest` consumes exactly the rendering
 and makes exactly the item's setter call
@@ -295,16 +410,17 @@ token by token (`hfmt`), every item inverts its token in front of the following 
 setter calls succeed on an empty record (`hset`), then `parse_from_str` of the formatted text is the
 resolution of exactly those fields.
 What is still NOT covered by a round-trip theorem, so that only this reduction is proved for it (these
-cases are compared with the crate, checked by the round-trip oracle and by the validation of the
-specification `pf.sp`):
+cases are compared with the crate and checked by the round-trip oracle; the specification predicts nothing
+for them, which the harness records as the excluded class `rfc3339-item` — `pf.spl`):
 * `%+` (the RFC 3339 item) next to other items in one format string: `family_roundtrip_rfc3339_item`
   covers the format strings that consist of `%+` alone (its reader `parse_rfc3339_relaxed` is then
   started on a fresh record and must consume the whole text); the specification keeps the item out of
   `Spec.Unambiguous` (`invertible`);
 * the `Z`-printing offset items (no specifier produces them: `items_are_proved`).
-No longer listed here: a fraction item directly after a white-space item is OUTSIDE the family since
+No longer listed here: `%.f` directly after a white-space item is OUTSIDE the family since
 `Spec.spaceSafe` became part of `Spec.Unambiguous` (`%S %.f .%3f` really does not round-trip in the
-crate; the unambiguous members `%S %.f`, `%S %3f` … are compared and checked by the oracle only);
+crate; the unambiguous member `%S %.f` is compared and checked by the oracle only; the fixed-width fraction
+items after white space, `%S %3f`, `%S %.3f` …, are inside the family since the second review);
 zone-aware values whose truncated wall clock is no instant of the range at the printed offset are
 characterised by `family_roundtrip_zoned_total` / `_excluded` (IMPOSSIBLE); a wall clock outside the range
 of `NaiveDate` makes `Spec.truncate_to_precision` predict nothing (the crate answers OUT_OF_RANGE; compared,
@@ -1283,5 +1399,69 @@ example :
 example : leapNormal ⟨45296, 1500000000⟩ = ⟨45297, 500000000⟩ ∧
     Chrono.Spec.TValid ⟨45296, 1500000000⟩ ∧ (45296 : Int) % 60 ≠ 59 := by decide
 
+
+/-! ### second review, G2: the dot-fraction items next to variable-width numbers and after white space
+
+`Spec.separated` accepts `%.3f %.6f %.9f` (a dot first) after any number, and `%.f` (nothing, or a dot first)
+directly after a number (what delimits `%.f` delimits the number); `Spec.afterSpaceOk` accepts the
+fixed-width fraction items and a literal whose first character is complete and not white space.  All 117
+time forms of the harness are now inside `Unambiguous` (the harness REQUIRES a prediction for them: `pf.sp`
+answers `nopred` otherwise). -/
+
+example : Unambiguous (Strftime.items (Chrono.asciiBytes "%H:%M:%-S%.f")) .time := by decide +kernel
+example : Unambiguous (Strftime.items (Chrono.asciiBytes "%H.%M.%-S%.f")) .time := by decide +kernel
+example : Unambiguous (Strftime.items (Chrono.asciiBytes "%H %M %_S%.3f")) .time := by decide +kernel
+example : Unambiguous (Strftime.items (Chrono.asciiBytes "%k:%-M:%-S%.9f")) .time := by decide +kernel
+example : Unambiguous (Strftime.items (Chrono.asciiBytes "%I:%M:%-S%.f %P")) .time := by decide +kernel
+example : Unambiguous (Strftime.items (Chrono.asciiBytes "%-S%.f:%H:%M")) .time := by decide +kernel
+example : Unambiguous (Strftime.items (Chrono.asciiBytes "%H:%M:%S %.3f")) .time := by decide +kernel
+example : Unambiguous (Strftime.items (Chrono.asciiBytes "%H:%M:%S %9f")) .time := by decide +kernel
+/-- `%H é%M` (a literal that starts with a non-blank non-ASCII character after white space) -/
+example : Unambiguous (Strftime.items [37, 72, 32, 195, 169, 37, 77]) .time := by decide +kernel
+/-- still outside: `%.f` after white space (`%S %.f .%3f` is really ambiguous), `%.f` before a dot -/
+example : ¬ Unambiguous (Strftime.items (Chrono.asciiBytes "%H:%M:%S %.f")) .time := by decide +kernel
+example : ¬ Unambiguous (Strftime.items (Chrono.asciiBytes "%H:%M:%-S%.f.%3f")) .time := by decide +kernel
+example : ¬ Unambiguous (Strftime.items (Chrono.asciiBytes "%H:%M:%-S%.f%.3f")) .time := by decide +kernel
+/-- a number directly before `%.f` directly before a digit is not separated -/
+example : ¬ Unambiguous (Strftime.items (Chrono.asciiBytes "%H:%M:%-S%.f%d")) .naive := by decide +kernel
+
+/-- `family_roundtrip_time` on a newly covered member: `%H:%M:%-S%.f` for every valid time of day (the
+unpadded second is delimited by the dot of the fraction, or by the end for a whole second) -/
+example (t : Time) (htv : Chrono.Spec.TValid t) (hleap : 1000000000 ≤ t.frac → t.secs % 60 = 59) :
+    ∃ text, format (.time t) (Chrono.asciiBytes "%H:%M:%-S%.f") = Format.wok text ∧
+      parse_from_str .time text (Chrono.asciiBytes "%H:%M:%-S%.f") = .ok (.ok (.time t)) := by
+  have hi : Strftime.items (Chrono.asciiBytes "%H:%M:%-S%.f") =
+      [.numeric .hour .zero, .literal [58], .numeric .minute .zero, .literal [58], .numeric .second .none,
+       .fixed .nanosecond] := by decide +kernel
+  have h := family_roundtrip_time (Chrono.asciiBytes "%H:%M:%-S%.f") t htv (by rw [hi]; decide) ?_
+  · obtain ⟨text, h0, h, _⟩ := h
+    refine ⟨text, h0, ?_⟩
+    rw [h, hi]
+    have hfd : fracDigits [.numeric .hour .zero, .literal [58], .numeric .minute .zero, .literal [58],
+        .numeric .second .none, .fixed .nanosecond] = 9 := by decide
+    have hc : (carries [.numeric .hour .zero, .literal [58], .numeric .minute .zero, .literal [58],
+        .numeric .second .none, .fixed .nanosecond]).second = true := by decide
+    obtain ⟨_, _, t3, t4⟩ := htv
+    have e9 := (cutFrac_forms t.frac).1
+    have : truncTime [.numeric .hour .zero, .literal [58], .numeric .minute .zero, .literal [58],
+        .numeric .second .none, .fixed .nanosecond] t = t := by
+      simp only [truncTime, hc, hfd, e9, Bool.true_eq_false, if_false]
+      cases t with
+      | mk secs frac =>
+        simp only [Time.mk.injEq, true_and]
+        simp only at t3 t4
+        split <;> omega
+    rw [this]
+  · rw [hi]
+    refine ⟨trivial, ?_, trivial, ?_, ?_⟩
+    · simpa [exprLeap, shown, onSome] using hleap
+    · intro h; exact absurd h (by decide)
+    · simp only [exprFrac, shown, onSome]
+      intro it hm
+      have hfd : fracDigits [.numeric .hour .zero, .literal [58], .numeric .minute .zero, .literal [58],
+          .numeric .second .none, .fixed .nanosecond] = 9 := by decide
+      rw [hfd]
+      simp only [List.mem_cons, List.not_mem_nil, or_false] at hm
+      rcases hm with rfl | rfl | rfl | rfl | rfl | rfl <;> simp [itemFracDigits]
 
 end Chrono.Props.C13
